@@ -23,6 +23,8 @@ func checkC14(c *Ctx) {
 	}
 	c.Floor("NO-BREAK", 1)
 	c.pathLengthsTable()
+	c.Decides("TABLE: in the matrix command the documented values of -m select the metric they name (brlen, boot, none)")
+	c.matrixMetricTable("TABLE", "according to the chosen metric")
 	c.distanceMatrixOrder()
 	c.avgMatrix()
 	c.cutEdges()
